@@ -40,12 +40,14 @@ def gen_arg(rng, pname, L, kind):
         f = lambda: rng.choice([None, 0, -1, L, L + 2, -L - 2, rng.randrange(-L - 2, L + 3)])
         return {'slice': [f(), f(), rng.choice([None, 1, -1, 2, -3, 0])]}
     if pname in ('bs', 'prefix', 'suffix', 'delimiter', 'old', 'new', 'other', 'auto', 'trailing_bits'):
-        return rng.choice([smallbits(), smallbits(), {'self': 1}, {'str': rng.choice(['0b101', '0xff', '', 'uint:8=300', 'hex=xyz', '0b12', '(', '2*(uint:8', 'ue=-1', 'bogus', 'uint:8', 'float:33=1', 'bits:5'])},
+        return rng.choice([smallbits(), smallbits(), {'self': 1}, {'str': rng.choice(['0b101', '0xff', '', 'uint:8=300', 'hex=xyz', '0b12', '(', '2*(uint:8', 'ue=-1', 'bogus', 'uint:8', 'float:33=1', 'bits:5',
+                                                                                       '(' * 1200 + '0b1' + ')' * 1200])},
                            {'bytes': [rng.randrange(256) for _ in range(rng.randrange(0, 3))]}, {'list': [rng.randrange(2) for _ in range(rng.randrange(0, 5))]}, 5, 2.5, None])
     if pname in ('fmt', 'dtype', 'token'):
         if pname == 'dtype': return {'str': rng.choice(['uint:8', 'hex', 'int:4', 'float:16', 'bogus:3', 'uint:0', 'bytes:2', 'ue', '>h', '', 'bool'])}
         return rng.choice([{'str': rng.choice(['uint:8', 'hex', 'bin:3', 'int:4, uint:4', 'ue', 'bits', 'bytes:2', 'float:16', 'bool', 'pad:2', '2*uint:3', '>h', 'uint:0', 'uint:-1', 'bogus:3', 'uint:x',
-                                                '(uint:8', '0*(', 'hex:3', 'float:17', 'se, ue, bin', 'bits, bits', 'uint:99999', '', ',', 'a*(uint:8)', 'uint8=5', '<3q', 'x', 'u-1'])},
+                                                '(uint:8', '0*(', 'hex:3', 'float:17', 'se, ue, bin', 'bits, bits', 'uint:99999', '', ',', 'a*(uint:8)', 'uint8=5', '<3q', 'x', 'u-1',
+                                                '(' * 1500 + 'uint:8' + ')' * 1500, '(' * 300 + 'hex:8, bin' + ')' * 300, '3*(' * 8 + 'bool' + ')' * 8])},
                            rng.choice([0, 1, 8, -1, L, L + 1]), {'intlist': [rng.choice([0, 1, 3, -1, L + 1]) for _ in range(rng.randrange(0, 3))]}])
     if pname in ('value', 'x', 'v', 'uint', 'int'):
         return rng.choice([0, 1, -1, 255, 256, -129, 2 ** 70 if pname != 'x' else 300, 0.5, True, None, {'str': 'abc'}, 1e40] +
